@@ -23,6 +23,7 @@ import (
 	"rcproxy/core"
 	"rcproxy/core/authip"
 	"rcproxy/core/codec"
+	"rcproxy/core/pkg/constant"
 	"rcproxy/core/pkg/logging"
 )
 
@@ -234,6 +235,14 @@ func (ls *listenServer) OnMoved(addr string, slot int32, s core.SConn, f *core.F
 
 	delete(f.Peer.Fd2Slot, s.Fd())
 	f.Peer.Fd2Slot[sConn.Fd()] = slot
+
+	// the node named by an ASK redirect serves the command only if it is preceded by ASKING
+	if f.Type == codec.RspAsk {
+		asking := core.FragPool.Get()
+		asking.Discard = true
+		asking.Req = append(asking.Req, constant.ReqAsking...)
+		sConn.EnqueueOutFrag(asking)
+	}
 
 	sConn.EnqueueOutFrag(f)
 }
